@@ -122,6 +122,14 @@ class Ctx:
             res["printed"] = res.get("printed", []) + printed
         if not ok and not res["failed"]:
             res["build_ok"] = True      # the failure is in files this property does not depend on
+        if not res["failed"]:
+            err = self.consts_obligation()
+            if err:
+                res["failed"] = "constants obligation: " + err
+            else:
+                if self.coverage.get("consts_tie"):
+                    res["theorems"].append("consts_%s_ok" % self.pid.lower())
+                    res["closed"].append("consts_%s_ok" % self.pid.lower())
         if self.tier == "thorough" and not res["failed"]:
             res["coqchk"] = self.coqchk(files)
             if not res["coqchk"]["ok"]:
@@ -156,6 +164,50 @@ class Ctx:
         bad = ok and not ("type-in-type: <none>" in out and "unsafe (co)fixpoints: <none>" in out and "positivity is assumed: <none>" in out)
         return {"ok": ok and not bad, "cmd": cmd, "axioms": axioms, "cached": cached, "wall_s": round(time.time() - t0, 1),
                 "summary": out[-1200:]}
+
+    def consts_obligation(self):
+        """Constants tie (translator-style, regenerated on every run): the numeric constants this property's
+        models copy from the Go code (tools/consts_map.json) are read from the tree under test through the
+        package-main driver and compared INSIDE Coq with the model's definitions (a generated file with one
+        theorem, compiled with coqc against the built development).  Returns None or an error text."""
+        mp = os.path.join(ROOT, "tools", "consts_map.json")
+        if not os.path.exists(mp):
+            return None
+        ents = json.load(open(mp)).get(self.pid)
+        if not ents:
+            return None
+        ok, out = self.build_main()
+        if not ok:
+            return None          # the plugin reports the broken harness build itself
+        rc, ans, log = self.run_main_lines("consts", ["K " + e[2] for e in ents])
+        if rc != 0 or len(ans) != len(ents):
+            return "constants driver failed: " + log[-600:]
+        vals = {}
+        for a in ans:
+            w = a.split()
+            if len(w) == 3 and w[2] != "?":
+                vals[w[1]] = int(w[2])
+        lines = ["(* GENERATED by tools/vlib.py consts_obligation from the tree under test *)",
+                 "From Coq Require Import NArith ZArith Bool.", ""]
+        conj = []
+        for q, ty, g in ents:
+            if g not in vals:
+                return "Go constant %s is not reported by the driver (zz_verif_consts_test.go)" % g
+            mod = q.rsplit(".", 1)[0]
+            lines.append("Require %s." % mod)
+            conj.append("(%s.eqb (%s : %s) %d%%%s)" % (ty, q, ty, vals[g], ty))
+        lines.append("Theorem consts_%s_ok : %s = true." % (self.pid.lower(), " && ".join(conj)))
+        lines.append("Proof. vm_compute. reflexivity. Qed.")
+        f = os.path.join(self.work, "ObConsts%s.v" % self.pid)
+        open(f, "w").write("\n".join(lines) + "\n")
+        rc, o = sh("timeout 600 coqc -Q %s Tinode -o %s %s" % (COQ, f + "o", f), cwd=self.work)
+        self.coverage["consts_tie"] = {"constants": [[q, g, vals[g]] for q, _, g in ents], "ok": rc == 0}
+        if rc != 0:
+            bad = []
+            for q, ty, g in ents:
+                bad.append("%s vs %s=%d" % (q, g, vals[g]))
+            return "a Go constant no longer has the value the model assumes (%s): %s" % ("; ".join(bad)[:900], o[-500:])
+        return None
 
     def proof_ok(self):
         p = self.proof
